@@ -320,7 +320,66 @@ TWIN_PAIRS = _twin_pairs()
 N_ENUM = 2 * len(SETTINGS) + len(TWIN_PAIRS)
 
 
+SWEEP = {"quick": 8000, "thorough": 400000}
+# (setting, order of its Laue group): the cost of a session grows with the number of families, the number of distinct
+# pairs of equivalent reflections (what a stream-dependent de-duplication can confuse) with families x order^2
+SWEEP_SETTINGS = [((221, "standard"), 48), ((229, "standard"), 48), ((225, "standard"), 48), ((200, "standard"), 24),
+                  ((191, "standard"), 24), ((123, "standard"), 16), ((139, "standard"), 16), ((175, "standard"), 12),
+                  ((162, "standard"), 12), ((166, "rhombohedral"), 12), ((83, "standard"), 8), ((47, "standard"), 8),
+                  ((148, "standard"), 6), ((10, "standard"), 4), ((2, "standard"), 2)]
+
+
+def generate_sweep(rng, tier, index):
+    """cheap session whose only interesting degree of freedom is the state of the global stream at the first use
+    in a fresh process (the property quantifies over 'any numpy RNG seed'): one small high-multiplicity workload, the
+    first genhkl_all call under a random stream state, a second one under another"""
+    (no, cc), order = rng.choice(SWEEP_SETTINGS)
+    kind = cell_kind(no, cc)
+    _, scale = kf_class(no, cc)
+    for _ in range(200):
+        style, cell = gen_cell(rng, kind)
+        if max(cell[:3]) > 9.5:
+            continue
+        # a few hundred lattice points in the sphere, whatever the cell volume
+        Gs_ = O.recip_metric(cell)
+        import numpy as _np
+        vol = 1.0 / math.sqrt(abs(float(_np.linalg.det(Gs_))))
+        ntarget = rng.uniform(100.0, 300.0) * max(1.0, order / 6.0)
+        smax = 0.5 * (ntarget * 3.0 / (4.0 * math.pi * vol)) ** (1.0 / 3.0)
+        if not (0.08 <= smax <= 0.95):
+            continue
+        allstl = O.stl_of(O.box_points(cell, smax * scale), O.recip_metric(cell))
+        if len(allstl) <= 40000 and O.margin_ok(allstl, [0.0, smax, smax * scale]):
+            break
+    else:
+        raise core.HarnessError("no sweep workload found")
+    w = {"sgno": no, "cell_choice": cc, "cell": [core.fhex(x) for x in cell], "cell_style": style,
+         "smin": core.fhex(0.0), "smax": core.fhex(smax), "pair": False}
+    module = rng.choice(["tools", "laue"])
+    ops = []
+    for _ in range(2):
+        st = ["seed", rng.bits(32)] if rng.chance(0.8) else ["seed_array", [rng.bits(32) for _ in range(rng.between(1, 4))]]
+        ops.append({"fn": "genhkl_all", "module": module, "mode": {"by": "sgno"}, "output_stl": False,
+                    "rng": {"start": st, "preconsume": rng.choice([0, 0, rng.between(1, 700)]), "per_draw": {}}, "w": 0})
+    cfg = {"workloads": [w], "fault_free": False, "fault_kinds": ["seed_sweep"], "session_seed": rng.bits(32),
+           "cell_container": "list", "sweep": True}
+    return {"property": "C05", "config": cfg, "ops": ops}
+
+
+def indices(prop, tier, runs, start):
+    """C05 appends the stream-state sweep to the sessions it shares with C06"""
+    base = list(range(start, start + runs))
+    if prop == "C05" and start == 0:
+        return base + list(range(SWEEP_BASE, SWEEP_BASE + int(SWEEP[tier] * min(1.0, runs / 4000.0))))
+    return base
+
+
+SWEEP_BASE = 10 ** 9
+
+
 def generate(rng, tier, index):
+    if index >= SWEEP_BASE:
+        return generate_sweep(rng, tier, index)
     twin = None
     if index < 2 * len(SETTINGS):
         no, cc = SETTINGS[index % len(SETTINGS)]
@@ -354,7 +413,8 @@ def generate(rng, tier, index):
             if fault_free:
                 sch = {"start": sch["start"], "preconsume": 0, "per_draw": {}}
             wops.append({"fn": "genhkl_all", "module": m, "mode": gen_mode(rng, w["sgno"], w["cell_choice"]),
-                         "output_stl": rng.chance(0.5), "rng": sch, "w": wi})
+                         "output_stl": rng.chance(0.5), "rng": sch, "w": wi,
+                         "scribble": rng.choice([None, None, None, "scale", "zero"])})
         if wi == 0 and rng.chance(0.3):
             # state restore: repeat one call from the same start state (determinism probe)
             j = rng.below(len(wops))
@@ -365,7 +425,8 @@ def generate(rng, tier, index):
             m = module if rng.chance(0.8) else ("laue" if module == "tools" else "tools")
             wops.insert(rng.below(len(wops) + 1),
                         {"fn": "genhkl_unique", "module": m, "mode": gen_mode(rng, w["sgno"], w["cell_choice"]),
-                         "output_stl": rng.chance(0.5), "rng": None, "w": wi})
+                         "output_stl": rng.chance(0.5), "rng": None, "w": wi,
+                         "scribble": rng.choice([None, None, "scale", "zero", "reverse"])})
         ops.append(wops)
     # interleave the workloads' calls (order inside one workload is kept)
     merged = []
@@ -635,8 +696,21 @@ def execute(trace):
                     viols.append(_viol(["C05", "C06"], "exception", site, exc))
                     events.append([opi, site, "exc", exc])
                     continue
-                arr = np.asarray(out)
+                arr = np.array(out, copy=True)
                 events.append([opi, site, list(arr.shape), nd, core.digest(core.enc_array(arr))[:16]])
+                if op.get("scribble") and isinstance(out, np.ndarray) and out.size:
+                    # the caller owns what it was handed and reuses it as scratch space
+                    try:
+                        if op["scribble"] == "scale":
+                            out *= 2
+                        elif op["scribble"] == "zero":
+                            out[...] = 0
+                        else:
+                            out[...] = out[::-1].copy()
+                        count("fault.caller_overwrites_returned_array")
+                    except ValueError:
+                        count("probe.returned_array_read_only")
+                out = arr
                 r = rows_of(out, site, 4 if op["output_stl"] else 3)
                 if r is None:
                     continue
@@ -970,7 +1044,8 @@ def precheck(prop, seed, tier):
     for f in core.findings_for(prop):
         hits = 0
         for w in f.get("witnesses", []):
-            res = execute_for(prop, w["trace"])
+            from . import runner
+            res = runner.run_trace(prop, w["trace"])      # never execute the code under test in the main process
             if res["violation"] is not None:
                 # a witness must be fully explained by its finding
                 return {"lines": lines, "viols": [(res["violation"], w["trace"])], "info": info}
